@@ -15,7 +15,7 @@ from concretise import NONE, MISSING
 UNKNOWN = -999                                            # a value the theme cannot name (itself a divergence)
 UNKNOWN_POINT = {"t": UNKNOWN, "m": UNKNOWN, "tg": [], "fd": []}
 
-INT_OPS = {"insert", "insert_multiple", "remove", "drop_measurement", "update", "update_all", "count", "len", "contains", "bad"}
+INT_OPS = {"insert", "insert_multiple", "remove", "drop_measurement", "update", "update_all", "count", "len", "repr", "contains", "bad"}
 NONE_OPS = {"remove_all", "reindex", "reopen"}
 
 
@@ -56,7 +56,11 @@ class Db:
 
     def close(self):
         try:
-            self.db.close()
+            if self.nops % 2:
+                self.db.close()
+            else:                                   # leaving a `with TinyFlux(...) as db:` block
+                with self.db:
+                    pass
         except Exception:
             pass
 
@@ -119,7 +123,7 @@ class Db:
                     tg[th.keyidx("tag", name) - 1] = th.rank("tag", None if v == "_none" else v)
                 elif k.startswith("_field_") or k.startswith("f_"):
                     name = k[7:] if k.startswith("_field_") else k[2:]
-                    fd[th.keyidx("field", name) - 1] = th.rank("field", None if v == "_none" else float(v))
+                    fd[th.keyidx("field", name) - 1] = th.rank("field", None if v == "_none" else _number(v))
                 else:
                     return dict(UNKNOWN_POINT)
                 i += 2
@@ -298,6 +302,10 @@ class Db:
             return [self.abs_point(p) for p in r]
         if op == "len":
             return len(target)
+        if op == "repr":
+            import re as _re
+            m_ = _re.search(r"(?:all_points_count|total)=(\d+)", repr(target))
+            return int(m_.group(1)) if m_ else NONE          # the count is only printed while the index is valid
         if op == "iter":
             return [self.abs_point(p) for p in iter(target)]
         if op == "get_measurements":
@@ -454,6 +462,12 @@ class Db:
                 return inner(old) if callable(inner) else dict(inner)
             kw["fields"] = failing
         return kw
+
+
+def _number(text):
+    """the number a cell denotes, exactly: digits only (with an optional sign) is an int of any size"""
+    t = text[1:] if text[:1] in "+-" else text
+    return int(text) if t.isdigit() else float(text)
 
 
 def _items(idx, rq):
